@@ -16,6 +16,12 @@
 //! *canonicalised* dump of the persisted auth and space states (CBOR with every map and array
 //! sorted recursively, so hash-map iteration order cannot matter) must be unchanged.
 //!
+//! Part `rotations`: the same as `histories`, but members publish further key bundle messages that
+//! carry *distinct* bundles (new pre-key, as after a pre-key rotation; built from seeded randomness
+//! with long lifetimes, nothing depends on the wall clock advancing); steps are mostly key bundle
+//! messages, deliveries and re-deliveries, in particular of an older key bundle after a newer one
+//! of the same author. The digest includes the persisted key registry (stored bundles per member).
+//!
 //! Part `messages`: on top of a small fixed world every `SpacesArgs` variant is forged with
 //! generated field values (known / unknown space and group ids, every auth action incl. Promote /
 //! Demote, dependencies taken from what the receiver already processed, replayed direct messages,
@@ -37,10 +43,11 @@ use p2panda_core::{Hash, Header, SigningKey, VerifyingKey};
 use p2panda_encryption::Rng;
 use p2panda_encryption::crypto::x25519::SecretKey;
 use p2panda_encryption::key_bundle::{Lifetime, LongTermKeyBundle, PreKey};
-use p2panda_spaces::test_utils::{TestOperation, TestPeer, TestSpacesStore};
-use p2panda_spaces::{AuthMessage, Config, Credentials, Event, SpacesArgs, SpacesStoreState};
+use p2panda_spaces::test_utils::{TestForge, TestOperation, TestPeer, TestSpacesStore};
+use p2panda_spaces::{AuthMessage, Config, Credentials, Event, Forge, SpacesArgs, SpacesStoreState};
 use p2panda_store::Transaction;
 use p2panda_store::groups::GroupsStore;
+use p2panda_store::key_registry::KeyRegistryStore;
 use p2panda_store::spaces::SpacesStore;
 use serde::{Deserialize, Serialize};
 
@@ -91,6 +98,11 @@ struct World {
     labels: BTreeSet<&'static str>,
     redeliveries: u32,
     redeliveries_nontrivial: u32,
+    /// Re-deliveries of a key bundle message to a peer that had already processed a *newer*,
+    /// distinct key bundle of the same author (pre-key rotation in between).
+    older_bundle_after_newer: u32,
+    /// Source of the pre-keys of `Step::FreshKeyBundle`.
+    fresh_rng: Rng,
     /// Open known findings (tolerated when listed in known_findings.txt).
     open: Open,
     /// A failure matching an open finding was seen in this case.
@@ -201,6 +213,39 @@ fn cbor_fields<T: Serialize>(value: &T) -> Vec<(String, String)> {
         .collect()
 }
 
+/// Like `cbor_fields`, one level deeper: for every top-level field that is a map, one entry per
+/// map key (`field.key` -> number of entries of the value + digest of its canonical rendering).
+fn cbor_entries<T: Serialize>(value: &T) -> Vec<(String, String)> {
+    let mut bytes = Vec::new();
+    if ciborium::ser::into_writer(value, &mut bytes).is_err() {
+        return vec![("unencodable".into(), String::new())];
+    }
+    let Ok(ciborium::Value::Map(fields)) = ciborium::de::from_reader::<ciborium::Value, _>(&bytes[..]) else {
+        return vec![("undecodable".into(), String::new())];
+    };
+    let render = |v: &ciborium::Value| {
+        let size = match v {
+            ciborium::Value::Array(a) => format!("{} entries ", a.len()),
+            ciborium::Value::Map(m) => format!("{} entries ", m.len()),
+            _ => String::new(),
+        };
+        format!("{size}#{}", &Hash::digest(canon(v).as_bytes()).to_hex()[..10])
+    };
+    let mut out = Vec::new();
+    for (k, v) in &fields {
+        let name = k.as_text().map(|s| s.to_string()).unwrap_or_else(|| canon(k));
+        out.push((name.clone(), render(v)));
+        if let ciborium::Value::Map(entries) = v {
+            for (ek, ev) in entries {
+                let ek = canon(ek);
+                let short: String = ek.chars().filter(|c| c.is_ascii_alphanumeric()).take(12).collect();
+                out.push((format!("{name}.{short}"), render(ev)));
+            }
+        }
+    }
+    out
+}
+
 fn join_sorted(mut items: Vec<String>) -> String {
     items.sort();
     items.join(" ")
@@ -242,6 +287,8 @@ impl World {
             labels: BTreeSet::new(),
             redeliveries: 0,
             redeliveries_nontrivial: 0,
+            older_bundle_after_newer: 0,
+            fresh_rng: Rng::from_seed(seed32(seed, 0xF4E5)),
             open,
             excluded: false,
         }
@@ -274,6 +321,24 @@ impl World {
             let groups = groups.unwrap_or_default();
             auth_facets("auth", &groups, &mut asserted);
             full.insert("auth".into(), canon_hash(&groups));
+
+            // Key registry (public key material collected from key bundle messages): per field and
+            // per member the number of stored entries and a digest of their canonical rendering
+            // (private fields, read through the serialised form).
+            let registry = <TestSpacesStore as KeyRegistryStore>::get_key_registry(&peer.sstore)
+                .await
+                .map_err(|e| format!("key registry: {e}"))?;
+            match &registry {
+                None => {
+                    asserted.insert("keyreg".into(), "none".into());
+                }
+                Some(registry) => {
+                    for (name, value) in cbor_entries(registry) {
+                        asserted.insert(format!("keyreg.{name}"), value);
+                    }
+                    full.insert("keyreg".into(), canon_hash(registry));
+                }
+            }
 
             let mut ids = <TestSpacesStore as SpacesStore<SpacesStoreState<()>>>::space_ids(&peer.sstore)
                 .await
@@ -422,6 +487,24 @@ impl World {
             self.redeliveries_nontrivial += 1;
         }
         let own = self.log[i].author == p;
+        let mut diff = Vec::new();
+        for (k, v) in &after.asserted {
+            match before.asserted.get(k) {
+                Some(b) if b == v => {}
+                Some(b) => diff.push(format!("{k}: [{b}] -> [{v}]")),
+                None => diff.push(format!("{k}: <absent> -> [{v}]")),
+            }
+        }
+        for k in before.asserted.keys() {
+            if !after.asserted.contains_key(k) {
+                diff.push(format!("{k}: removed"));
+            }
+        }
+        let older_after_newer = self.newer_bundle_processed(p, i);
+        if older_after_newer {
+            self.older_bundle_after_newer += 1;
+            self.labels.insert("older_key_bundle_redelivered_after_newer");
+        }
         match outcome {
             Outcome::Panic(m) => {
                 return Err(format!("second processing of message {i} ({what}) panicked at peer {p}: {m}"));
@@ -438,27 +521,15 @@ impl World {
                         if own { ", own" } else { "" },
                         events.len(),
                         events
-                    ) + if only_key_bundle_events { " [signature K-C39e]" } else { "" });
+                    ) + &(if diff.is_empty() { String::new() } else { format!("; state changed: {}", diff.join("; ")) })
+                        + if only_key_bundle_events { " [signature K-C39e]" } else { "" });
                 }
             }
             Outcome::Err(_) => {
                 self.labels.insert("second_processing_err");
             }
         }
-        if before.asserted != after.asserted {
-            let mut diff = Vec::new();
-            for (k, v) in &after.asserted {
-                match before.asserted.get(k) {
-                    Some(b) if b == v => {}
-                    Some(b) => diff.push(format!("{k}: [{b}] -> [{v}]")),
-                    None => diff.push(format!("{k}: <absent> -> [{v}]")),
-                }
-            }
-            for k in before.asserted.keys() {
-                if !after.asserted.contains_key(k) {
-                    diff.push(format!("{k}: removed"));
-                }
-            }
+        if !diff.is_empty() {
             return Err(format!(
                 "second processing of message {i} ({what}) changed the state of peer {p}: {}",
                 diff.join("; ")
@@ -481,6 +552,19 @@ impl World {
             _ => self.labels.insert("redelivered_auth"),
         };
         Ok(())
+    }
+
+    /// Is message `i` a key bundle message and has peer `p` successfully processed a later key
+    /// bundle message of the same author that carries a *different* bundle?
+    fn newer_bundle_processed(&self, p: usize, i: usize) -> bool {
+        let SpacesArgs::KeyBundle { key_bundle: mine } = self.log[i].op.borrow() as &Args else {
+            return false;
+        };
+        (i + 1..self.log.len()).any(|j| {
+            self.log[j].author == self.log[i].author
+                && self.first[p].get(&j).copied().unwrap_or(false)
+                && matches!(self.log[j].op.borrow() as &Args, SpacesArgs::KeyBundle { key_bundle } if key_bundle != mine)
+        })
     }
 
     // ---- message log -------------------------------------------------------------------------
@@ -813,6 +897,34 @@ impl World {
                     }
                 }
             }
+            Step::FreshKeyBundle { by } => {
+                // A pre-key rotation as other peers see it: a further key bundle message in the
+                // member's log carrying a different, valid bundle of the same identity key. The
+                // manager itself only rotates when the wall clock says so (and two rotations within
+                // the same second may publish the old bundle again), so the bundle is built here:
+                // fresh seeded pre-key, signed with the member's identity secret, forged into the
+                // member's own log exactly like `Manager::key_bundle_message` does (`TestForge` on
+                // the member's store). It is valid for 30 days, i.e. it always expires *before* the
+                // member's managed bundle (90 days), so nobody ever picks it for key agreement
+                // (`latest_key_bundle` = furthest expiry) and the member is never asked for the
+                // pre-key secret.
+                let by = idx(*by, n);
+                let now = SystemTime::now().duration_since(UNIX_EPOCH).map(|d| d.as_secs()).unwrap_or(0);
+                let identity = self.peers[by].tp.credentials.identity_secret();
+                let prekey_secret = SecretKey::from_rng(&self.fresh_rng).map_err(|e| e.to_string())?;
+                let lifetime = Lifetime::from_range(now.saturating_sub(3600), now + 30 * 24 * 3600);
+                let prekey = PreKey::new(prekey_secret.verifying_key().map_err(|e| e.to_string())?, lifetime);
+                let signature = prekey.sign(&identity, &self.fresh_rng).map_err(|e| e.to_string())?;
+                let key_bundle = LongTermKeyBundle::new(identity.verifying_key().map_err(|e| e.to_string())?, prekey, signature);
+                let forge = TestForge::new(self.peers[by].tp.store.clone(), self.peers[by].tp.credentials.signing_key());
+                let op = self
+                    .rt
+                    .block_on(<TestForge as Forge<()>>::forge(&forge, SpacesArgs::KeyBundle { key_bundle }))
+                    .map_err(|e| format!("forging a fresh key bundle message: {e}"))?;
+                self.labels.insert("fresh_key_bundle");
+                // Like for `Step::KeyBundle` the author has not processed its own message yet.
+                self.publish(by, vec![op], false);
+            }
             Step::Repair { by } => {
                 let by = idx(*by, n);
                 let manager = self.peers[by].tp.manager.clone();
@@ -907,6 +1019,9 @@ pub enum Step {
     GroupRemove { by: u16, group: u16, who: u16 },
     Publish { by: u16, space: u16, len: u8 },
     KeyBundle { by: u16 },
+    /// The peer publishes a key bundle message with a *new* pre-key (a second, third, ... distinct
+    /// bundle of the same member, as after a pre-key rotation).
+    FreshKeyBundle { by: u16 },
     Repair { by: u16 },
     Deliver { to: u16, pick: u16, count: u8 },
     Redeliver { to: u16, pick: u16 },
@@ -949,6 +1064,41 @@ fn history_strategy(max_steps: usize) -> impl Strategy<Value = History> {
         prop::collection::vec(any::<u16>(), 0..64),
     )
         .prop_map(|(n, seed, steps, sweep)| History { n, seed, steps, sweep })
+}
+
+/// Part `rotations`: the same machinery; members publish further, distinct key bundles (as after a
+/// pre-key rotation) and the steps are mostly key bundle messages, partial deliveries and
+/// re-deliveries.
+fn rotation_step_strategy() -> impl Strategy<Value = Step> {
+    let u = any::<u16>;
+    prop_oneof![
+        5 => u().prop_map(|by| Step::FreshKeyBundle { by }),
+        1 => u().prop_map(|by| Step::KeyBundle { by }),
+        5 => (u(), u(), 1u8..4).prop_map(|(to, pick, count)| Step::Deliver { to, pick, count }),
+        7 => (u(), u()).prop_map(|(to, pick)| Step::Redeliver { to, pick }),
+        2 => Just(Step::Sync),
+        1 => (u(), u(), u(), any::<u8>()).prop_map(|(by, space, who, access)| Step::SpaceAdd { by, space, who, access }),
+        1 => (u(), u(), u()).prop_map(|(by, space, who)| Step::SpaceRemove { by, space, who }),
+        2 => (u(), u(), 0u8..24).prop_map(|(by, space, len)| Step::Publish { by, space, len }),
+    ]
+}
+
+fn rotations_strategy(max_steps: usize) -> impl Strategy<Value = History> {
+    (
+        2u8..=3,
+        any::<u64>(),
+        any::<u16>(),
+        prop::collection::vec(rotation_step_strategy(), 4..=max_steps),
+        prop::collection::vec(any::<u16>(), 0..64),
+    )
+        .prop_map(|(n, seed, first, generated, sweep)| {
+            // Every history starts with a member publishing a second, distinct bundle; the
+            // generated steps add more. Older ones are re-delivered after newer ones by the
+            // `Redeliver` steps and, at the latest, by the final sweep.
+            let mut steps = vec![Step::FreshKeyBundle { by: first }];
+            steps.extend(generated);
+            History { n, seed, steps, sweep }
+        })
 }
 
 fn check_history(case: &History, open: Open) -> CaseResult {
@@ -997,7 +1147,15 @@ fn check_history(case: &History, open: Open) -> CaseResult {
         w.redelivery(p, i)?;
     }
 
-    let mut ok = CaseOk::nontrivial(w.redeliveries_nontrivial > 0);
+    // Histories in which a member publishes several distinct bundles (part `rotations`):
+    // non-trivial = an older key bundle message was processed again by a peer that had meanwhile
+    // processed a newer, distinct bundle of the same author.
+    let rotations = case.steps.iter().any(|s| matches!(s, Step::FreshKeyBundle { .. }));
+    let mut ok = if rotations {
+        CaseOk::nontrivial(w.older_bundle_after_newer > 0)
+    } else {
+        CaseOk::nontrivial(w.redeliveries_nontrivial > 0)
+    };
     for l in &w.labels {
         ok = ok.label(l);
     }
@@ -1645,8 +1803,9 @@ pub fn run(mut ctx: Ctx) -> ! {
          every other field is attacker-chosen",
     );
     ctx.assume(
-        "state is observed through the persisted store (process_persisted, like the repository's tests); key \
-         registry contents and pre-key secrets are not part of the compared group/space state",
+        "state is observed through the persisted store (process_persisted, like the repository's tests); the \
+         persisted key registry (identities and stored key bundles per member) is part of the compared state, \
+         pre-key secrets are not",
     );
     ctx.assume("key bundle lifetimes and group secret timestamps use the wall clock inside the code under test; no oracle depends on them");
 
@@ -1667,6 +1826,22 @@ pub fn run(mut ctx: Ctx) -> ! {
     .min_nontrivial(0.5)
     .shrink_iters(60);
     ctx.run_prop(histories, || history_strategy(max_steps), |case| check_history(case, open));
+
+    let max_rot_steps = ctx.pick(10usize, 16usize);
+    let rotations = Part::new(
+        "rotations",
+        "2-3 seeded TestPeers, key bundle exchange, create space, one member publishes a second key bundle message \
+         with a new pre-key (distinct valid bundle of the same identity, 30 days) + 4..=10(16) steps (mostly further \
+         fresh key bundle messages, partial deliveries in log order, re-deliveries; a few space \
+         add/remove/publish/unchanged key bundle), final flush and the final sweep re-processing every message at every peer. \
+         Non-trivial: a key bundle message is processed again by a peer that has meanwhile processed a newer, \
+         distinct key bundle of the same author.",
+        60,
+        3000,
+    )
+    .min_nontrivial(0.9)
+    .shrink_iters(60);
+    ctx.run_prop(rotations, || rotations_strategy(max_rot_steps), |case| check_history(case, open));
 
     let messages = Part::new(
         "messages",
